@@ -1028,6 +1028,8 @@ impl<'a, H: HK> Runner<'a, H> {
             let d = crate::decode::decode_image(&img).map_err(|m| viol(i, format!("on-disk image is not well-formed: {m}")))?;
             crate::decode::check_values(&d, view).map_err(|m| viol(i, format!("on-disk image does not decode to the model: {m}")))?;
             self.info.max("max_leaves", d.n_leaves as u64);
+            self.info.add("leaves_exactly_full_seen_in_images", d.leaves_exactly_full as u64);
+            self.info.add("leaves_with_fewer_than_8_free_bytes_seen_in_images", d.leaves_nearly_full as u64);
             self.info.max("max_bbn", d.n_bbn as u64);
             self.info.max("max_branch_node_body_bytes_of_4086", d.max_bbn_body as u64);
             if d.max_bbn_body >= 4079 {
